@@ -241,7 +241,15 @@ func (e *c13Env) arrive(tid, name int) {
 		e.byGid[gid] = th
 		e.mu.Unlock()
 		close(started)
-		hello, closeHello := doubles.Hello(e.names[name])
+		// the same name in different spellings: the wait maps must be keyed by the normalised name
+		sni := e.names[name]
+		switch tid % 3 {
+		case 1:
+			sni = strings.ToUpper(sni)
+		case 2:
+			sni = "  " + sni + " "
+		}
+		hello, closeHello := doubles.Hello(sni)
 		defer closeHello()
 		cert, err := e.cfg.GetCertificateWithContext(ctx, hello)
 		r := &c13Result{}
@@ -337,6 +345,9 @@ func (e *c13Env) settle() error {
 				}
 				if w, isWait := c13WaitFuncs[top]; isWait && g.State == "select" {
 					pos[i] = w
+				} else if g.State == "select" && strings.HasSuffix(top, "doubles.(*MemStorage).Lock") {
+					// blocked on the certificate lock in storage: a second worker for the same name
+					pos[i] = "blocked-lock"
 				} else {
 					ok, why = false, fmt.Sprintf("thread %d: state %q in %s", th.tid, g.State, top)
 				}
@@ -406,7 +417,7 @@ func (e *c13Env) shutdown() {
 // ---------------------------------------------------------------- one case
 
 var c13PosCode = map[string]int{"at-decision": 0, "at-load": 1, "at-issue": 2, "wait-load": 3, "wait-obtain": 4, "wait-renew": 5,
-	"done-empty": 7, "done-err": 8, "exited": 9}
+	"done-empty": 7, "done-err": 8, "exited": 9, "blocked-lock": 10}
 
 type c13Seen struct {
 	Action c13Action `json:"action"`
